@@ -76,7 +76,10 @@ def gen_params(rng, small=True):
         nx = rng.randint(3, 10 if small else 24); extra = rng.randint(1, 3)
     else:
         nx = rng.choice([3, 4, 5, 6, 7, 9] if small else [3, 5, 6, 9, 11, 17, 20]); extra = rng.randint(1, 3 if small else 4)
-    return {"kind": kind, "nx": nx, "ps": rng.loguniform(0.05, 0.5), "r0": rng.uniform(0.08, 0.5), "L0": rng.uniform(5, 100), "extra": extra}
+    # pixel scale: mostly floats; sometimes a Python int (1 or 2 m per pixel: coarse but legal, and integer arithmetic must not truncate anything)
+    ps = rng.loguniform(0.05, 0.5) if rng.random() < 0.8 else rng.choice([1, 2])
+    r0 = rng.uniform(0.08, 0.5) if not isinstance(ps, int) else rng.uniform(0.5, 2.0)
+    return {"kind": kind, "nx": nx, "ps": ps, "r0": r0, "L0": rng.uniform(5, 100), "extra": extra}
 
 
 def vk_cov(r, r0, L0):
